@@ -431,6 +431,7 @@ struct Runner {
 	void take_snapshot() { snapshot = live; snap_used = (long)pool->numUsedPages(); snap_mapped = 0; for(auto &r : env.regions) if(r.mapped) snap_mapped++; }
 	void after_failure(const char *what) {
 		VCHECK(c, "C04", live.size() == snapshot.size(), "model");
+		if(poison) for(auto &b : live) VCHECK_OWN(c, "C03", accessible(b.p, std::max<size_t>(b.req, 1)), "%s: the requested bytes of the live block at %#lx (%zu bytes) are poisoned after a call in which map() failed", what, (unsigned long)b.p, b.req);
 		if(poison) for(auto &b : live) VCHECK(c, "C04", accessible(b.p, std::max<size_t>(b.req, 1)), "%s: map() failed and the requested bytes of the existing block at %#lx (%zu bytes) are no longer accessible (poisoned)", what, (unsigned long)b.p, b.req);
 		for(auto &b : live) { touch(b, what); size_t bad; if(!verify_n(b, b.filled, &bad)) c.fail("C04", "%s: map() failed and byte %zu of the existing block at %#lx changed", what, bad, (unsigned long)b.p); }
 		VCHECK(c, "C04", (long)pool->numUsedPages() == snap_used, "%s: map() failed and numUsedPages() changed from %ld to %zu", what, snap_used, pool->numUsedPages());
